@@ -74,7 +74,7 @@ def gen_family(seed, idx):
     gen.finalise(subject)
     if rng.chance(0.25) and supports_shots_none(subject):
         subject["shots"] = None
-    init_state = rng.chance(0.35)
+    init_state = rng.weighted([(False, 62), (True, 26), ("blank", 12)])
     ops = []
     for _ in range(rng.randrange(0, 3)):
         ops.append({"op": rng.pick(["validate", "copy", "as_code", "repr", "eq", "nest", "blackbird", "execute"])})
@@ -110,7 +110,11 @@ class World:
         prog_spec = [self._flavour(i, sc.get("array_flavour", "C")) for i in subj["program"]]
         self.initial_state = None
         self.initial_state0 = None
-        if sc.get("init_state"):
+        if sc.get("init_state") == "blank":
+            # the user passes the simulator's own blank initial state and keeps the preparations in the program
+            self.initial_state = self._make_state([])
+            self.initial_state0 = self._make_state([])
+        elif sc.get("init_state"):
             n_prep = 0
             for i in prog_spec:
                 if issubclass(getattr(pq, i["type"]), pq.Preparation):
